@@ -199,6 +199,27 @@ def check_c01_c02(c, result):
         c.tie(tq8, res8, ip8, model8, result)
         oracle(c, tq8, res8, model8, result, c.files, k8)
         c.stats['accessor_value_queries'] = len(tq8)
+    # (2g) nested predicates with value parameters, the OUTER one called more than once with different arguments
+    # (what an expansion cache keyed by the call's text, or by name only, confuses)
+    tq9, k9 = [], {}
+    for i, kq in enumerate(kinds2[:4]):
+        accq = querygen.KINDS[kq][0][0]
+        vals = [v for v in c.vocab.get(kq, {}).get(accq, []) if isinstance(v, str) and '\n' not in v]
+        vals = list(dict.fromkeys(vals))[:6] + ['alpha', 'beta', 'gamma', 'delta']
+        a_, b_, c_, d_ = (querygen.lit(v) for v in vals[:4])
+        NAMED = 'predicate named(%s m, string n) { m.%s() == n } ' % (kq, accq)
+        ONEOF = 'predicate oneOf(%s m, string a, string b) { named(m, a) || named(m, b) } ' % kq
+        for j, w in enumerate(['oneOf(x, %s, %s) || oneOf(x, %s, %s)' % (a_, b_, c_, d_), 'oneOf(x, %s, %s) && !oneOf(x, %s, %s)' % (a_, c_, c_, d_),
+                               'named(x, %s) || oneOf(x, %s, %s) || named(x, %s)' % (d_, a_, b_, c_), '!(oneOf(x, %s, %s)) && !(oneOf(x, %s, %s))' % (a_, b_, c_, d_)]):
+            qid = 'w%d_%d' % (i, j)
+            tq9.append((qid, NAMED + ONEOF + 'FROM %s AS x WHERE %s SELECT x.%s()' % (kq, w, accq)))
+            k9[qid] = 1
+    if tq9:
+        res9, ip9, _ = c.run(tq9)
+        model9 = c.model(tq9)
+        c.tie(tq9, res9, ip9, model9, result)
+        oracle(c, tq9, res9, model9, result, c.files, k9)
+        c.stats['nested_predicate_queries'] = len(tq9)
     # (2d) string literals with multi-byte characters in conditions that are TRUE for (almost) every entity, with and
     # without predicates: a condition cut or re-encoded wrongly loses every match
     tq7, k7 = [], {}
